@@ -44,6 +44,13 @@ def gen_cases(tier, seed):
                         cases.append(dict(part='filter', filt=filt, pattern=pattern, n=3, t0=0.0,
                                           wa=False, step=step, samples=[list(x) for x in s],
                                           models=models, form='list', vert=True))
+            # kilometre-size position fixes and horizontal-only (VD = NaN) velocity fixes
+            for s in schedx.subsets_upto(3, 1):
+                if len(s) == 1 and s[0][1] in ('P', 'V'):
+                    for filt in ('fb', 'ff'):
+                        flag = 'big' if s[0][1] == 'P' else 'nan_vertical'
+                        cases.append(dict(part='filter', filt=filt, pattern=pattern, n=3, t0=0.0, wa=False, step=step,
+                                          samples=[list(x) for x in s], models='bias', form='list', vert=True, **{flag: True}))
             if tier == 'quick':
                 # a handful of pairs incl. clustered ones
                 for s in ([(1, 'P'), (2, 'V')], [(5, 'P'), (5, 'V')], [(9, 'V'), (10, 'P')],
@@ -81,6 +88,15 @@ def run_filter_case(case):
         if (tr['alt'].values != alt0).any():
             v('c13-fb-altitude-changes', 'feedback trajectory altitude %s != supplied %r'
               % (tr['alt'].values.tolist(), alt0))
+    # every in-span sample is used (a horizontal-only fix is a fix) and gives a finite 2-row innovation
+    times_ = obs['times']
+    want = sorted(obs['slots'][s_] for s_, k_ in case['samples'] if times_[0] <= obs['slots'][s_] < times_[-1])
+    used = sorted(t for _, t, ok, _ in obs['log'] if ok)
+    if used != want:
+        v('c13-sample-not-used', '2D: samples at %s used, expected %s' % (used, want))
+    for nm_, inn in res['innovations'].items():
+        if len(inn) and not np.isfinite(np.asarray(inn.values, dtype=float)).all():
+            v('c13-innovation-nonfinite', '2D: non-finite innovation for %s' % nm_)
     # two-row measurement models
     for tag, t, ok, nz in obs['log']:
         if ok and tag in ('P', 'V') and nz != 2:
